@@ -51,10 +51,10 @@ package auth
 //@   name GenerateAuth/UpdateRequest
 //@   in ~/internal/auth
 //@   infunc \)\.UpdateRequest$
-//@   requires handler-of-the-request-host: recv == caller.a.hs[caller.host][caller.at] && caller.host == old(caller.req.URL.Host)
+//@   requires handler-of-the-request-host: recv == caller.a.hs[old(caller.req.URL.Host)][caller.at]
 //@ callsite (net/http.Header).Set(key, value)
 //@   prop C11
 //@   name Header.Set/UpdateRequest
 //@   in ~/internal/auth
 //@   infunc \)\.UpdateRequest$
-//@   requires only-the-handlers-value: key == "Authorization" && value == caller.ah && recv == caller.req.Header
+//@   requires only-the-handlers-value: key == "Authorization" && value == $ret(GenerateAuth, 0) && recv == caller.req.Header
